@@ -75,6 +75,8 @@ def run(ctx):
     cfgs = cfgs[:6000 if thorough else 420]
     for k, c in enumerate(cfgs):
         c["marker"] = k % 3
+        if c["org"] + c["size"] > 65535:
+            c["org"] = 16                     # (a program of 23 granules does not fit behind $F000)
     ctx.cov["suites"]["export"] = {"tlc_enumerated_configurations": total, "run": len(cfgs)}
     t0 = time.time()
     os.environ["VERIF_SCRATCH"] = tlc.OUT
